@@ -60,6 +60,34 @@ class RunCtx:
         self.cb_hooks.append(hook)
         return hook
 
+    def nest_after(self, k, fn):
+        """Fault F10: the k-th model call-back from now runs fn() once - another run of the library, nested inside the
+        call-back of this one (what a reward function or heuristic that consults a planner, or an option that plans
+        lazily, does).  The nested run's own model call-backs are not hooked."""
+        box = dict(n=0, done=False)
+
+        def hook(name, ids):
+            box['n'] += 1
+            if box['n'] == k and not box['done']:
+                box['done'] = True
+                saved = (self.cb_hooks, self.last, self.W, self.view)
+                self.cb_hooks = []
+                self.last = None          # (the nested model is not hooked: nothing it draws is an initial-state draw of the outer run)
+                if self.sched is not None:
+                    self.sched.fire('F10_nested_run')
+                try:
+                    fn()
+                except (Violation, Inconclusive, HarnessError):
+                    raise
+                except Exception as e:
+                    raise Violation('exception', f"the run nested inside a model call-back raised {type(e).__name__}: {e}",
+                                    dict(key=f"exception/nested-run/{type(e).__name__}"))
+                finally:
+                    self.cb_hooks, self.last, self.W, self.view = saved
+        hook.box = box
+        self.cb_hooks.append(hook)
+        return hook
+
     def disarm(self, hook):
         if hook in self.cb_hooks:
             self.cb_hooks.remove(hook)
